@@ -18,7 +18,7 @@ from harness import core, gen_nwi
 from harness.core import Prop, outcome, unrat
 
 NAN_TOK = core.tok(float("nan"))
-ELEMENTS = ["Ho165", "P31", "Eu153"]
+ELEMENTS = ["Ho165", "P31", "Eu153", "Gd157"]
 DIRS = ["lr", "rl", "tb", "bt"]
 # spot sizes in 1e-4 um: 0.1, 1.1, 12.5, 40, 1, 0.3333, 5.05, 100.25, 2.5
 SPOTS = [1000, 11000, 125000, 400000, 10000, 3333, 50500, 1002500, 25000]
@@ -69,8 +69,46 @@ def valid_cuts(acq, sel):
     return sorted(set(cuts))
 
 
+def line_positions(acq):
+    """(pattern index, line index, position of the line's first pixel sample in the acquisition, pattern)"""
+    out, pos = [], 0
+    for pi, li, n in segments(acq):
+        if pi is not None:
+            out.append((pi, li, pos, acq["patterns"][pi]))
+        pos += n
+    return out
+
+
+def plan_samples(acq, entry):
+    """acquisition sample indices named by one entry of a NaN plan.  `line`: every pixel of line idx (mod the number of
+    lines) of pattern `pat` (None = of every pattern) - a whole image row (horizontal scans) or column; `along`: the
+    pixel at position idx (mod the line length, counted in the pattern's own direction, so the same image column / row
+    in the returning lines of a serpentine scan) of every line; `mod`: every sample k with k % mod == rem"""
+    what, idx = entry["what"], entry.get("idx", 0)
+    if what == "mod":
+        m = max(1, entry.get("mod", 1))
+        return {k for k in range(total_samples(acq)) if k % m == entry.get("rem", 0) % m}
+    npat = len(acq["patterns"])
+    pat = None if entry.get("pat") is None else entry["pat"] % npat
+    out = set()
+    for pi, li, pos, p in line_positions(acq):
+        if pat is not None and pi != pat:
+            continue
+        if what == "line":
+            if li == idx % len(p["lines"]):
+                out.update(range(pos, pos + p["npix"]))
+        elif what == "along":
+            c = idx % p["npix"]
+            out.add(pos + (p["npix"] - 1 - c if (p["serp"] and li % 2 == 1) else c))
+        else:
+            raise core.InternalError(f"bad nan plan entry {entry}")
+    return out
+
+
 def sample_values(case, n):
-    """deterministic element values of the n samples (from the case's own value seed)"""
+    """deterministic element values of the n samples (from the case's own value seed).  NaN samples: `nan_mod` (every
+    element of every nan_mod-th sample), a sprinkle in single elements, and `nan_plan`: whole lines / pixel positions /
+    strides that are NaN in the listed elements only (a detector that dropped out for one element)"""
     rng = random.Random(case["vseed"])
     names = ELEMENTS[: case["nelem"]]
     data = np.empty(n, dtype=[(nm, np.float64) for nm in names])
@@ -85,13 +123,101 @@ def sample_values(case, n):
                 v = math.nan if (r < 0.03 and len(names) > 1 and nm != names[0]) else \
                     float(rng.randint(0, 10 ** 6)) / 8 if r < 0.6 else rng.random() * 1e4
             data[nm][k] = v
+    skip = case["acq"]["skip"]
+    for entry in case.get("nan_plan", []):
+        elems = sorted({e % len(names) for e in entry["elems"]})
+        for a in plan_samples(case["acq"], entry):
+            if 0 <= a - skip < n:
+                for e in elems:
+                    data[names[e]][a - skip] = math.nan
     return data
 
 
 CLOCKS = ["array", "array2d", "scalar", "npscalar"]
 LAYOUTS = ["flat", "row", "rows", "col", "fortran", "strided"]
 DTYPES = ["f8", "f4", "plain"]
+SELFORMS = ["plain", "numpy", "tuple", "np32"]
 DEFAULTS = {"clock": "array", "layout": "flat", "layout_k": 0, "dtype": "f8", "selform": "plain", "precall": False}
+TEXT_DEFAULT = {"eol": "lf", "bom": False, "final_eol": True}
+
+# wall-clock instants an acquisition may run across: the stamps of the log carry the date
+BOUNDS = {"midnight": (2024, 7, 18), "month-end": (2024, 5, 1), "month-end-30": (2024, 7, 1), "year-end": (2025, 1, 1),
+          "feb28-29-leap": (2024, 2, 29), "feb29-mar1": (2024, 3, 1), "feb28-mar1": (2025, 3, 1),
+          "noon": (2024, 7, 17, 12), "hour": (2024, 7, 17, 14)}
+DATE_MODES = ["in-line", "between-lines", "at-on", "at-off", "on-999", "off-999", "first-on-999"]
+POISON = -12345.0
+
+
+def selected_lines(rows, selpat):
+    """(pattern index, On time, Off time) in ms of laser clock for every line of the selected patterns, in log order"""
+    out, pi = [], -1
+    for i, r in enumerate(rows):
+        if r["seq"] != -1:
+            pi += 1
+        if r["on"] and pi in selpat and i + 1 < len(rows):
+            out.append((pi, r["time"], rows[i + 1]["time"]))
+    return out
+
+
+def base_time(case, rows, selpat):
+    """wall-clock time of laser clock 0.  A `date` plan puts a boundary (midnight, a month's / year's end, the leap day,
+    noon, a full hour) at a chosen place of the imported lines: inside line k, between lines k and k+1, exactly on an
+    On / Off row (stamp 00:00:00.000), or one millisecond after it (stamp 23:59:59.999)"""
+    plan = case.get("date")
+    b = case["base"]
+    plain = datetime.datetime(*b[:6], b[6] * 1000)
+    lines = selected_lines(rows, selpat)
+    if plan is None or not lines:
+        return plain
+    if plan["kind"] not in BOUNDS or plan["mode"] not in DATE_MODES:
+        raise core.InternalError(f"bad date plan {plan}")
+    k, frac, mode = plan["k"] % len(lines), Fraction(plan["frac"] % 8, 8), plan["mode"]
+    _, on, off = lines[k]
+    if mode == "between-lines" and k + 1 < len(lines):
+        nxt = lines[k + 1][1]
+        at = min(nxt, off + 1 + int(frac * (nxt - off))) if nxt > off else nxt
+    elif mode in ("in-line", "between-lines"):
+        at = on + 1 + int(frac * (off - on))
+    elif mode == "first-on-999":
+        at = lines[0][1] + 1
+    else:
+        at = {"at-on": on, "at-off": off, "on-999": on + 1, "off-999": off + 1}[mode]
+    return datetime.datetime(*BOUNDS[plan["kind"]]) - datetime.timedelta(milliseconds=at)
+
+
+def date_features(case, rows, selpat, base):
+    """what the stamps of the imported lines really do (whether planned or by accident of the start time)"""
+    f = set()
+    lines = selected_lines(rows, selpat)
+    if not lines:
+        return f
+
+    def at(ms):
+        return base + datetime.timedelta(milliseconds=ms)
+
+    for i, (pi, on, off) in enumerate(lines):
+        if at(on).date() != at(off).date():
+            f.add("date:crossed-inside-a-line")
+        if i + 1 < len(lines) and at(off).date() != at(lines[i + 1][1]).date():
+            f.add("date:crossed-between-" + ("lines" if lines[i + 1][0] == pi else "patterns"))
+        for t in (at(on), at(off)):
+            if (t.hour, t.minute, t.second) == (0, 0, 0) and t.microsecond == 0:
+                f.add("date:stamp-00:00:00.000")
+            if (t.hour, t.minute, t.second) == (23, 59, 59):
+                f.add("date:stamp-23:59:59.9xx")
+    first, last = at(lines[0][1]), at(lines[-1][2])
+    if first.date() != last.date():
+        f.add("date:import-spans-two-dates")
+        f.add("date:" + ("year" if first.year != last.year else "month" if first.month != last.month else "day") + "-changes")
+        if (last - first).total_seconds() >= 86400:
+            f.add("date:import-longer-than-24h")
+        if (first.month, first.day) == (2, 29) or (last.month, last.day) == (2, 29):
+            f.add("date:leap-day")
+    else:
+        f.add("date:one-day")
+    if case.get("date") is not None:
+        f.add("boundary:" + case["date"]["kind"])
+    return f
 
 
 def opt(case, key):
@@ -128,6 +254,40 @@ def lay_out(flat, layout, shape, poison):
         return buf[::2]
     arr = flat.reshape(shape)
     return np.asfortranarray(arr) if layout == "fortran" else arr
+
+
+def edit_in_place(obj, undo, depth=0):
+    """what a caller may do with the objects a call returned: arrays are overwritten / rescaled in place, lists likewise,
+    containers are walked.  Every edit is recorded in `undo` (kind, object, previous content)"""
+    if depth > 4:
+        return
+    if isinstance(obj, np.ndarray):
+        if obj.size == 0 or not obj.flags.writeable:
+            return
+        undo.append(("array", obj, obj.copy()))
+        if obj.dtype.names is not None:
+            for nm in obj.dtype.names:
+                if obj.dtype[nm].kind == "f":
+                    obj[nm][...] = POISON
+        elif obj.dtype.kind == "f":
+            if obj.ndim >= 2:
+                obj[...] = POISON
+            else:
+                obj *= 2.0
+        elif obj.dtype.kind in "iu":
+            obj *= 2
+    elif isinstance(obj, dict):
+        for v in list(obj.values()):
+            edit_in_place(v, undo, depth + 1)
+    elif isinstance(obj, (list, tuple)):
+        if isinstance(obj, list):
+            undo.append(("list", obj, list(obj)))
+            for i, v in enumerate(obj):
+                if isinstance(v, (int, float)) and not isinstance(v, bool):
+                    obj[i] = v * 2
+        for v in obj:
+            if isinstance(v, (np.ndarray, dict, list, tuple)):
+                edit_in_place(v, undo, depth + 1)
 
 
 class C08(Prop):
@@ -191,8 +351,33 @@ class C08(Prop):
         return rng.randint(10 ** 7, 10 ** 9)                   # 1e3 .. 1e5 um with four decimals
 
     def generate(self, rng, tier):
+        case = self.generate_one(rng, tier)
+        # HISTORY: one or two earlier synchronisations in the same process - of the same log and signal objects with
+        # another selection, of another acquisition logged with the same spot size string, or of an unrelated one.
+        # After each call the caller edits every mutable object that call returned (parameter arrays, the image) in
+        # place.  Each call is judged against the ground truth of its own inputs.
+        if rng.random() < 0.25:
+            p0 = case["acq"]["patterns"][selected(case["acq"], case["sel"])[0]]
+            hist = []
+            for _ in range(rng.choice([1, 1, 2])):
+                kind = rng.choice(["same", "same", "spot", "spot", "diff"])
+                if kind == "same":
+                    h = copy.deepcopy(case)
+                    seqs = [p["seq"] for p in h["acq"]["patterns"]]
+                    h["sel"] = rng.choice([None, seqs[0], [seqs[-1]], seqs, h["sel"]])
+                    h["squeeze"] = rng.random() < 0.5
+                    h["precall"] = False
+                elif kind == "spot":
+                    h = self.generate_one(rng, tier, spot=(p0["sxu"], p0["syu"], p0["circular"]))
+                else:
+                    h = self.generate_one(rng, tier)
+                hist.append(h)
+            case["history"] = hist
+        return case
+
+    def generate_one(self, rng, tier, spot=None):
         npat = rng.choice([1, 1, 1, 2, 2, 3])
-        sxu, syu, circ = self.gen_spot(rng)
+        sxu, syu, circ = self.gen_spot(rng) if spot is None else spot
         X0, Y0 = self.gen_origin(rng), self.gen_origin(rng)
         seqs, s = [], rng.randint(1, 4)
         for _ in range(npat):
@@ -235,10 +420,10 @@ class C08(Prop):
                "skip": 0, "take": 0,
                "t0": core.rat(rng.choice([Fraction(0), Fraction(69, 4), Fraction(rng.randint(0, 10 ** 7), 1000),
                                           Fraction(rng.randint(0, 10 ** 9), 10 ** 6)]))}
-        # lead-in before the first firing: a gap on the very first line
+        # lead-in before the first firing: a gap on the very first line (a negative delay, possibly longer than a line)
         if rng.random() < 0.5:
             patterns[0]["lines"][0]["gap"] = rng.choice([3, 250, 1000, 20000])
-            patterns[0]["lines"][0]["gap_samples"] = rng.choice([1, 2, 5])
+            patterns[0]["lines"][0]["gap_samples"] = rng.choice([1, 2, 5, 12])
         # a signal sampled at a constant interval (the only kind a caller can describe by the acquisition time per
         # sample): one dwell time for all patterns, every laser-off gap a whole number of sample intervals
         uniform = rng.random() < 0.4
@@ -268,23 +453,53 @@ class C08(Prop):
             clock = rng.choice(["array", "array", "array2d"])
         extra = {"clock": clock, "layout": layout, "layout_k": rng.randrange(8),
                  "dtype": rng.choice(["f8", "f8", "f8", "f4", "plain"]),
-                 "selform": rng.choice(["plain", "plain", "numpy"]), "precall": rng.random() < 0.15}
-        return {**extra, "acq": acq, "sel": sel, "squeeze": rng.random() < 0.5,
+                 "selform": rng.choice(["plain", "plain", "numpy", "numpy", "tuple", "np32"]), "precall": rng.random() < 0.15}
+        nelem = rng.choice([1, 2, 2, 3, 3, 4])
+        case = {**extra, "acq": acq, "sel": sel, "squeeze": rng.random() < 0.5,
                 "nan_mod": rng.choice([0, 0, 0, 0, 3, 4, 7, 1]) if rng.random() < 0.9 else 2, "nan_rem": 0,
-                "nelem": rng.choice([1, 2, 3]), "vseed": rng.randint(0, 2 ** 31),
+                "nelem": nelem, "vseed": rng.randint(0, 2 ** 31),
                 "base": [rng.choice([2024, 2025]), rng.randint(1, 12), rng.randint(1, 28), rng.choice([0, 11, 13, 23]),
                          rng.choice([0, 12, 59]), rng.choice([0, 58, 59]), rng.choice([0, 112, 999])],
-                "via": rng.choice(["path", "pathobj", "array", "array"])}
+                "via": rng.choice(["path", "pathobj", "array", "array"]),
+                "text": {"eol": rng.choice(["lf", "crlf", "crlf"]), "bom": rng.random() < 0.1, "final_eol": rng.random() < 0.85}}
+        # the run crosses a date (or noon / a full hour) somewhere in the imported lines
+        if rng.random() < 0.3:
+            case["date"] = {"kind": rng.choice(["midnight"] * 4 + list(BOUNDS)), "mode": rng.choice(DATE_MODES),
+                            "k": rng.randrange(12), "frac": rng.randrange(8)}
+        # NaN samples that differ between the elements: a whole line / one pixel position of every line / a stride of
+        # samples is NaN in the first, a middle, the last, several or all elements
+        if rng.random() < 0.4:
+            case["nan_mod"] = rng.choice([0, 0, 0, case["nan_mod"]])
+            case["nan_plan"] = [self.gen_nan_entry(rng, nelem, npat) for _ in range(rng.choice([1, 1, 2, 3]))]
+        return case
+
+    def gen_nan_entry(self, rng, nelem, npat):
+        which = rng.choice(["first", "first", "last", "middle", "but-first", "but-last", "all"])
+        elems = {"first": [0], "last": [nelem - 1], "middle": [nelem // 2], "but-first": list(range(1, nelem)) or [0],
+                 "but-last": list(range(nelem - 1)) or [0], "all": list(range(nelem))}[which]
+        what = rng.choice(["line", "line", "line", "along", "along", "mod"])
+        e = {"elems": elems, "what": what, "idx": rng.randrange(12), "pat": None if rng.random() < 0.6 else rng.randrange(npat)}
+        if what == "mod":
+            e["mod"], e["rem"] = rng.choice([2, 3, 5]), rng.randrange(5)
+        return e
 
     def simple(self, d, serp, nlines, npix, X=0, Y=0, sxu=10000, syu=10000, circ=False, gap=10, gs=1, squeeze=False, sel=None,
-               skip=0, take=None, **extra):
-        p = {"seq": 1, "dir": d, "serp": serp, "X": X, "Y": Y, "sxu": sxu, "syu": syu, "circular": circ, "npix": npix,
+               skip=0, take=None, seq=1, **extra):
+        p = {"seq": seq, "dir": d, "serp": serp, "X": X, "Y": Y, "sxu": sxu, "syu": syu, "circular": circ, "npix": npix,
              "dwell": 10, "lines": [{"gap": gap, "gap_samples": gs if gap else 0, "moves": 2} for _ in range(nlines)]}
         acq = {"patterns": [p], "phase": core.rat(Fraction(1, 2)), "tail_gap": 10, "tail_samples": 1, "skip": skip, "take": 0,
                "t0": core.rat(0)}
         acq["take"] = (total_samples(acq) - skip) if take is None else take
         return {**DEFAULTS, "acq": acq, "sel": sel, "squeeze": squeeze, "nan_mod": 0, "nan_rem": 0, "nelem": 2, "vseed": 7,
                 "base": [2024, 7, 17, 13, 12, 58, 112], "via": "path", **extra}
+
+    def two_patterns(self, d1, d2, **extra):
+        """two logged patterns on one pixel grid (numbered 2 and 5), the second one 12 pixels further along x"""
+        a = self.simple(d1, True, 2, 3, seq=2, **extra)
+        b = self.simple(d2, False, 3, 2, seq=5, X=12 * 10000)
+        a["acq"]["patterns"].append(b["acq"]["patterns"][0])
+        a["acq"]["take"] = total_samples(a["acq"])
+        return a
 
     def targeted(self, tier):
         for d in DIRS:
@@ -315,96 +530,228 @@ class C08(Prop):
         # a signal of a single sample, and a two-sample one, with the clock as a float
         yield self.simple("lr", False, 1, 1, gap=0, gs=0, take=1, clock="scalar", layout="row")
         yield self.simple("bt", False, 1, 2, gap=0, gs=0, take=2, clock="npscalar", layout="col", dtype="plain")
+        # the run crosses midnight / a month's or year's end / the leap day / noon / a full hour: inside a line, between
+        # two lines, between two patterns, with a row stamped 00:00:00.000 or 23:59:59.999
+        kinds = list(BOUNDS)
+        for i, mode in enumerate(DATE_MODES):
+            for j in range(3):
+                yield self.simple(DIRS[(i + j) % 4], j == 1, 3, 3, gap=[10, 0, 2500][j], squeeze=(i + j) % 2 == 0,
+                                  via=["path", "array", "pathobj"][(i + j) % 3], text={"eol": "crlf", "bom": False, "final_eol": True},
+                                  date={"kind": kinds[(3 * i + j) % len(kinds)] if j else "midnight", "mode": mode, "k": i + j,
+                                        "frac": 3 * i + j})
+        for i, kind in enumerate(kinds):
+            yield self.two_patterns(DIRS[i % 4], DIRS[(i + 1) % 4], sel=[None, 5, [2, 5]][i % 3],
+                                    date={"kind": kind, "mode": "between-lines", "k": 1, "frac": i},
+                                    via=["array", "path"][i % 2])
+        yield self.simple("lr", False, 2, 2, gap=86400000, gs=1, date={"kind": "midnight", "mode": "in-line", "k": 0, "frac": 4})
+        # text layer as the instrument writes it (CRLF) and its harmless variants
+        for i, (eol, bom, fin) in enumerate([("crlf", False, True), ("crlf", True, False), ("lf", True, True), ("lf", False, False)]):
+            yield self.simple(DIRS[i], i % 2 == 0, 2, 3, via=["path", "array"][i % 2], text={"eol": eol, "bom": bom, "final_eol": fin})
+        # NaN samples that differ between the elements: a whole line / a pixel position of every line NaN in one element
+        # only (first, middle, last), in all but one, in all; 1-4 elements; with and without squeeze
+        i = 0
+        for nelem in (1, 2, 3, 4):
+            for which in ([0], [nelem - 1], [nelem // 2], list(range(1, nelem)) or [0], list(range(nelem))):
+                for what in ("line", "along"):
+                    i += 1
+                    yield self.simple(DIRS[i % 4], i % 3 == 0, 3, 3, squeeze=i % 4 != 3, nelem=nelem, gap=[10, 0][i % 2],
+                                      dtype=["f8", "f4"][i % 5 == 0],
+                                      nan_plan=[{"elems": which, "what": what, "idx": i, "pat": None}])
+        yield self.simple("lr", True, 4, 3, squeeze=True, nelem=3,
+                          nan_plan=[{"elems": [0], "what": "line", "idx": 1, "pat": None},
+                                    {"elems": [2], "what": "along", "idx": 0, "pat": None},
+                                    {"elems": [1], "what": "mod", "mod": 2, "rem": 1, "idx": 0, "pat": None}])
+        # HISTORY: two or three synchronisations in one process; the caller edits what each call returned in place
+        a = self.simple("lr", False, 3, 4, sxu=400000, syu=400000)
+        b = self.simple("rl", True, 2, 5, sxu=400000, syu=400000, X=1205000, Y=-3102500, squeeze=True, via="array")
+        c = self.simple("tb", False, 2, 3, sxu=400000, syu=400000, circ=True, X=77, Y=5)
+        d = self.simple("bt", True, 3, 2, sxu=11000, syu=125000)
+        yield {**copy.deepcopy(b), "history": [a]}                                   # same spot string, another log
+        yield {**copy.deepcopy(a), "history": [copy.deepcopy(a)]}                    # the very same objects again
+        yield {**copy.deepcopy(c), "history": [c, copy.deepcopy(c)]}                 # circular notation, three calls
+        yield {**copy.deepcopy(d), "history": [a, b]}                                # unrelated
+        yield {**copy.deepcopy(a), "history": [d, b], "squeeze": True}
+        e = self.two_patterns("lr", "bt", sel=5, via="array")
+        yield {**copy.deepcopy(e), "history": [{**copy.deepcopy(e), "sel": [2]}, {**copy.deepcopy(e), "sel": None}]}
+        yield {**copy.deepcopy(e), "via": "path", "sel": [2, 5], "history": [{**copy.deepcopy(e), "via": "path", "sel": 2}]}
 
     # ------------------------------------------------------------------ evaluation
     def evaluate(self, case, ctx):
+        steps = [h for h in case.get("history", [])] + [case]
+        if any("history" in h for h in steps[:-1]):
+            raise core.InternalError("nested history")
+        lg = logging.getLogger("pewlib.io.laser")             # "flattening" / "multiple spot sizes" warnings: not observed
+        was_disabled, lg.disabled = lg.disabled, True
+        env = {"tmp": ctx.tmpdir(), "objects": {}, "logs": {}, "undo": []}
+        res = []
+        try:
+            for i, step in enumerate(steps):
+                r = self.one(step, ctx, env, i)
+                res.append(r)
+                if i + 1 < len(steps) and r.get("returned") is not None:
+                    # the caller works on what it got: every mutable object is edited in place
+                    for obj in r["returned"]:
+                        edit_in_place(obj, env["undo"])
+        finally:
+            # leave the process as a caller would who never touched the results: a case is judged on its own history only
+            for kind, obj, old in reversed(env["undo"]):
+                try:
+                    if kind == "array":
+                        obj[...] = old
+                    else:
+                        obj[:] = old
+                except Exception:
+                    pass
+            lg.disabled = was_disabled
+            ctx.cleanup()                                      # the synthetic logs are not needed any more
+        for r in res:
+            r.pop("returned", None)
+        det = [r for r in res if not r["undetermined"]]
+        feats = set(res[-1]["features"])
+        if len(res) > 1:
+            feats.add(f"history:calls:{len(res)}")
+            feats |= res[-1]["relation"]
+        if len(res) == 1:
+            r = res[0]
+            return outcome(r["impl"], r["model"], r["spec"], spec_ok=r["spec_ok"], model_ok=r["model_ok"],
+                           undetermined=r["undetermined"], hyp=r["hyp"], features=feats)
+        return outcome([r["impl"] for r in res], [r["model"] for r in res], [r["spec"] for r in res],
+                       spec_ok=all(r["spec_ok"] for r in det), model_ok=all(r["model_ok"] for r in det),
+                       undetermined=not det, hyp=all(r["hyp"] for r in res), features=feats if det else [])
+
+    def one(self, case, ctx, env, index):
+        """one judged synchronisation: returns impl / model / spec of this call and the objects it returned"""
         from pathlib import Path
 
         from pewlib.io import laser
 
+        skipres = {"impl": {}, "model": {}, "spec": {}, "spec_ok": True, "model_ok": True, "undetermined": True, "hyp": False,
+                   "features": set(), "relation": set(), "returned": None}
         acq, sel, squeeze = case["acq"], case["sel"], case["squeeze"]
         clock, layout, dtype = opt(case, "clock"), opt(case, "layout"), opt(case, "dtype")
-        if clock not in CLOCKS or layout not in LAYOUTS or dtype not in DTYPES:
+        text = {**TEXT_DEFAULT, **case.get("text", {})}
+        if clock not in CLOCKS or layout not in LAYOUTS or dtype not in DTYPES or opt(case, "selform") not in SELFORMS \
+                or text["eol"] not in ("lf", "crlf") or not 1 <= case["nelem"] <= len(ELEMENTS):
             raise core.InternalError(f"bad case options {clock} {layout} {dtype}")
-        shape = layout_shape(layout, opt(case, "layout_k"), signal_count(acq))
+        n = signal_count(acq)
+        shape = layout_shape(layout, opt(case, "layout_k"), n)
         scalar = clock in ("scalar", "npscalar")
-        rep = ctx.driver.call("c08.case", acq=acq, sel=sel, squeeze=squeeze, nan_mod=case["nan_mod"], nan_rem=case["nan_rem"],
-                              shape=shape, clock="interval" if scalar else "stamps")
-        if not rep["rendered"]:
-            # nothing to import (no On row in the selection, or an empty signal): outside the property
-            return outcome({}, {}, {}, undetermined=True, hyp=False, features=[])
-        if not rep["shape_ok"] or (scalar and rep["interval"] is None):
-            # the signal was not sampled at a constant interval: no acquisition time per sample describes it
-            return outcome({}, {}, {}, undetermined=True, hyp=False, features=[])
-        rows = rep["rows"]
-        rel = [unrat(t) for t in rep["times"]]
-        n = len(rel)
-        delay = float(unrat(rep["delay"]))
+        # the values of the signal are the harness's; the Lean side is told which samples are NaN in every element
         flat = sample_values(case, n)
         if dtype == "f4":
             flat = flat.astype([(nm, np.float32) for nm in flat.dtype.names])
         names = flat.dtype.names if dtype != "plain" else flat.dtype.names[:1]
-        allnan = [all(math.isnan(flat[nm][k]) for nm in names) for k in range(n)]
+        isnan = [[bool(np.isnan(flat[nm][k])) for nm in names] for k in range(n)]
+        allnan = [all(v) for v in isnan]
         toks = [[core.tok(flat[nm][k]) for nm in names] for k in range(n)]
-        if dtype == "plain":                                   # a single element as a plain float array
-            flat = np.ascontiguousarray(flat[names[0]])
-        data = lay_out(flat, layout, shape, -1.0 if dtype == "plain" else tuple(-1.0 for _ in names))
-        if scalar:
-            dt = float(unrat(rep["interval"]))
-            times = dt if clock == "scalar" else np.float64(dt)
+        rep = ctx.driver.call("c08.case", acq=acq, sel=sel, squeeze=squeeze, nan=[k for k in range(n) if allnan[k]],
+                              shape=shape, clock="interval" if scalar else "stamps")
+        if not rep["rendered"]:
+            # nothing to import (no On row in the selection, or an empty signal): outside the property
+            return skipres
+        if not rep["shape_ok"] or (scalar and rep["interval"] is None):
+            # the signal was not sampled at a constant interval: no acquisition time per sample describes it
+            return skipres
+        rows = rep["rows"]
+        rel = [unrat(t) for t in rep["times"]]
+        if len(rel) != n:
+            raise core.InternalError(f"signal of {len(rel)} samples rendered, {n} expected")
+        delay = float(unrat(rep["delay"]))
+        selpat = set(selected(acq, sel))
+        base = base_time(case, rows, selpat)
+
+        # ---- the objects the caller holds: the same description gives the same objects within one history
+        okey = core.canon([acq, case["nelem"], case["vseed"], case["nan_mod"], case["nan_rem"], case.get("nan_plan", []),
+                           dtype, layout, opt(case, "layout_k"), clock])
+        relation = set()
+        if okey in env["objects"]:
+            data, times, keep = env["objects"][okey]
+            relation.add("history:same-signal-object")
         else:
-            tflat = np.array([float(t) for t in rel], dtype=np.float64)
-            if clock == "array2d":                             # stamps in the data's shape (a row when that is 1-d)
-                times = lay_out(tflat, layout if len(shape) == 2 else "row", shape if len(shape) == 2 else [1, n], -1.0)
+            if dtype == "plain":                               # a single element as a plain float array
+                flat = np.ascontiguousarray(flat[names[0]])
+            data = lay_out(flat, layout, shape, -1.0 if dtype == "plain" else tuple(-1.0 for _ in names))
+            if scalar:
+                dt = float(unrat(rep["interval"]))
+                times = dt if clock == "scalar" else np.float64(dt)
             else:
-                times = lay_out(tflat, "strided" if layout == "strided" else "flat", [n], -1.0)
+                tflat = np.array([float(t) for t in rel], dtype=np.float64)
+                if clock == "array2d":                         # stamps in the data's shape (a row when that is 1-d)
+                    times = lay_out(tflat, layout if len(shape) == 2 else "row", shape if len(shape) == 2 else [1, n], -1.0)
+                else:
+                    times = lay_out(tflat, "strided" if layout == "strided" else "flat", [n], -1.0)
+            keep = [data.copy(), None if scalar else times.copy()]
+            env["objects"][okey] = (data, times, keep)
+        lkey = core.canon([rows, base.isoformat(), text, case["via"]])
+        impl = None
+        if lkey in env["logs"]:
+            log, logkeep, impl = env["logs"][lkey]
+            relation.add("history:same-log-object")
+        else:
+            path = env["tmp"] / f"LaserLog_synthetic_{index}.csv"
+            gen_nwi.write_log(path, rows, base, eol="\r\n" if text["eol"] == "crlf" else "\n", bom=text["bom"],
+                              final_eol=text["final_eol"])
+            via = case["via"]
+            try:
+                log = str(path) if via == "path" else Path(path) if via == "pathobj" else laser.read_nwi_laser_log(path)
+            except Exception as e:
+                log = None
+                impl = {"raises": type(e).__name__, "msg": str(e)[:200]}
+            logkeep = log.copy() if isinstance(log, np.ndarray) else None
+            env["logs"][lkey] = (log, logkeep, impl)
+        first = min(selpat) if selpat else None            # the spot size string the import reads
+        spotstr = None if first is None else tuple(acq["patterns"][first][k] for k in ("sxu", "syu", "circular"))
+        if index > 0:
+            relation.add("history:same-spot-string" if spotstr in env.setdefault("spots", set()) else "history:other-spot-string")
+        env.setdefault("spots", set()).add(spotstr)
+
+        def restore():
+            """argument mutation is not an observation point of C08: every call gets the modelled input"""
+            for cur, old in ((data, keep[0]), (times, keep[1]), (log, logkeep)):
+                if old is not None and isinstance(cur, np.ndarray) and cur.tobytes() != old.tobytes():
+                    cur[...] = old
 
         def field(arr, nm):
             return arr if arr.dtype.names is None else arr[nm]
 
-        path = ctx.tmpdir() / "LaserLog_synthetic.csv"
-        gen_nwi.write_log(path, rows, datetime.datetime(*case["base"][:6], case["base"][6] * 1000))
-        lg = logging.getLogger("pewlib.io.laser")             # "flattening" / "multiple spot sizes" warnings: not observed
-        was_disabled, lg.disabled = lg.disabled, True
-        try:
-            via = case["via"]
-            log = str(path) if via == "path" else Path(path) if via == "pathobj" else laser.read_nwi_laser_log(path)
-            numpy_sel = opt(case, "selform") == "numpy"
+        returned = None
+        if log is not None:
+            try:
+                form = opt(case, "selform")
 
-            def seq_arg(x):
-                if isinstance(x, list):
-                    return np.array(x, dtype=int) if numpy_sel else list(x)
-                return np.int64(x) if (numpy_sel and x is not None) else x
+                def seq_arg(x):
+                    if isinstance(x, list):
+                        return (np.array(x, dtype=int) if form == "numpy" else np.array(x, dtype=np.int32) if form == "np32"
+                                else tuple(x) if form == "tuple" else list(x))
+                    if x is None:
+                        return None
+                    return np.int64(x) if form == "numpy" else np.int32(x) if form == "np32" else x
 
-            if opt(case, "precall"):
-                # an earlier import from the same objects (another selection, another delay); its result is not looked
-                # at.  Arguments it altered are restored: the observed call gets the modelled input.
-                keep = (data.copy(), None if scalar else times.copy(), None if not isinstance(log, np.ndarray) else log.copy())
-                other = None if sel is not None else [p["seq"] for p in acq["patterns"]][:1]
-                try:
-                    laser.sync_data_nwi_laser_log(data, times, log, sequence=seq_arg(other), delay=delay + 0.0625,
-                                                  squeeze=not squeeze)
-                except Exception:
-                    pass
-                for cur, old in zip((data, times, log), keep):
-                    if old is not None and cur.tobytes() != old.tobytes():
-                        cur[...] = old
-            sync, params = laser.sync_data_nwi_laser_log(data, times, log, sequence=seq_arg(sel), delay=delay, squeeze=squeeze)
-            cells = []
-            for r in range(sync.shape[0]):
-                for c in range(sync.shape[1]):
-                    t = [core.tok(field(sync, nm)[r, c]) for nm in names]
-                    if not all(math.isnan(field(sync, nm)[r, c]) for nm in names):
-                        cells.append([r, c, t])
-            impl = {"shape": list(sync.shape), "cells": cells,
-                    "origin": [float(v).hex() for v in params["origin"]],
-                    "spot": [float(v).hex() for v in np.asarray(params["spotsize"]).ravel()],
-                    "delay": float(params["delay"]).hex()}
-        except Exception as e:  # the quantified inputs never raise
-            impl = {"raises": type(e).__name__, "msg": str(e)[:200]}
-        finally:
-            lg.disabled = was_disabled
-            ctx.cleanup()                                      # the synthetic log is not needed any more
+                restore()
+                if opt(case, "precall"):
+                    # an earlier import from the same objects (another selection, another delay); its result is not
+                    # looked at.  Arguments it altered are restored: the observed call gets the modelled input.
+                    other = None if sel is not None else [p["seq"] for p in acq["patterns"]][:1]
+                    try:
+                        laser.sync_data_nwi_laser_log(data, times, log, sequence=seq_arg(other), delay=delay + 0.0625,
+                                                      squeeze=not squeeze)
+                    except Exception:
+                        pass
+                    restore()
+                sync, params = laser.sync_data_nwi_laser_log(data, times, log, sequence=seq_arg(sel), delay=delay, squeeze=squeeze)
+                cells = []
+                for r in range(sync.shape[0]):
+                    for c in range(sync.shape[1]):
+                        t = [core.tok(field(sync, nm)[r, c]) for nm in names]
+                        if not all(math.isnan(field(sync, nm)[r, c]) for nm in names):
+                            cells.append([r, c, t])
+                impl = {"shape": list(sync.shape), "cells": cells,
+                        "origin": [float(v).hex() for v in params["origin"]],
+                        "spot": [float(v).hex() for v in np.asarray(params["spotsize"]).ravel()],
+                        "delay": float(params["delay"]).hex()}
+                returned = [sync, params]
+            except Exception as e:  # the quantified inputs never raise
+                impl = {"raises": type(e).__name__, "msg": str(e)[:200]}
 
         def conv(res):
             if "raises" in res:
@@ -430,13 +777,40 @@ class C08(Prop):
                 spec_ok = spec_ok and impl["shape"][0] >= spec["shape"][0] and impl["shape"][1] >= spec["shape"][1]
 
         feats = self.features(case, delay, rep)
+        feats |= date_features(case, rows, selpat, base)
+        feats |= self.nan_features(case, rep, isnan)
+        feats.add("text:" + text["eol"] + ("+bom" if text["bom"] else "") + ("" if text["final_eol"] else "+no-final-eol"))
         feats.add("layout:" + layout + ("" if len(shape) == 1 or layout in ("row", "col") else
                                         ":1xn" if shape[0] == 1 else ":kxm"))
         if scalar:
             feats.add("clock+layout:scalar+" + ("len=size" if shape[0] == n else "len<size"))
             feats.add("samples:" + ("1" if n == 1 else "2" if n == 2 else "3+"))
-        return outcome(impl, model, spec, spec_ok=spec_ok, model_ok=model_ok, undetermined=not rep["hyp"], hyp=rep["hyp"],
-                       features=feats)
+        return {"impl": impl, "model": model, "spec": spec, "spec_ok": spec_ok, "model_ok": model_ok,
+                "undetermined": not rep["hyp"], "hyp": rep["hyp"], "features": feats, "relation": relation, "returned": returned}
+
+    def nan_features(self, case, rep, isnan):
+        """which NaN structure the ground-truth image really has: a complete image row / column whose samples are NaN in
+        the first / a middle / the last element only (that row / column was ablated: it stays), or in all elements"""
+        f = set()
+        ne = len(isnan[0]) if isnan else 0
+        if any(any(v) and not all(v) for v in isnan):
+            f.add("nan:differs-between-elements")
+        if case.get("nan_plan"):
+            f.add("nan:plan")
+        sq = "+squeeze" if case["squeeze"] else ""
+        img = rep["spec"]["pixels"]
+        for kind, cells in [("row", r) for r in img] + [("column", list(c)) for c in zip(*img)]:
+            ks = [k for k in cells if k is not None]
+            if not ks:
+                continue
+            per = [all(isnan[k][e] for k in ks) for e in range(ne)]
+            if all(per):
+                f.add(f"nan:visited-{kind}:all-elements{sq}")
+            elif any(per) and ne > 1:
+                for e in range(ne):
+                    if per[e]:
+                        f.add(f"nan:visited-{kind}:{'first' if e == 0 else 'last' if e == ne - 1 else 'middle'}-element{sq}")
+        return f
 
     def features(self, case, delay, rep):
         acq, sel = case["acq"], case["sel"]
@@ -486,6 +860,22 @@ class C08(Prop):
     def shrink(self, case):
         acq, sel = case["acq"], case["sel"]
         selidx = selected(acq, sel)
+        hist = case.get("history", [])
+        if hist:
+            yield {k: v for k, v in copy.deepcopy(case).items() if k != "history"}
+            for h in hist:
+                yield copy.deepcopy(h)
+            if len(hist) > 1:
+                for i in range(len(hist)):
+                    yield {**copy.deepcopy(case), "history": [copy.deepcopy(h) for j, h in enumerate(hist) if j != i]}
+        for k in ("date", "nan_plan", "text"):
+            if k in case:
+                yield {kk: v for kk, v in copy.deepcopy(case).items() if kk != k}
+        if len(case.get("nan_plan", [])) > 1:
+            for i in range(len(case["nan_plan"])):
+                c = copy.deepcopy(case)
+                del c["nan_plan"][i]
+                yield c
 
         def rebuilt(c):
             c["acq"]["skip"], c["acq"]["take"] = 0, total_samples(c["acq"])
